@@ -208,22 +208,22 @@ WalkProg(mix, w, stride, count, first) ==
       l1 == Len(pre) + 2                             \* 0-based index of loop 1 head
       rd == IF w = 1 THEN Lb("t0", "a1", 0) ELSE IF w = 2 THEN Lh("t0", "a1", 0) ELSE Lw("t0", "a1", 0)
       hot2 == IF mix = "hot" THEN <<Lw("t0", "ra", 0), AddI("t2", "t2", "t0")>> ELSE <<>>
-  IN
-  IF mix = "wrap"
-  THEN \* top-tested loops closed by a jump: the only taken conditional branch is the exit, so that variants
-       \* that flush on every taken conditional branch run the whole walk without a flush
-       LET body1 == b \o <<Addi("a0", "a0", stride), I("andi", "a0", "a0", "zero", 2047, 0), Addi("t3", "t3", -1)>>
-           x1 == l1 + 1 + Len(body1) + 1               \* index after loop 1
-           loop1 == <<I("beqz", "zero", "t3", "zero", 0, x1)>> \o body1 \o <<J(l1)>>
-           l2 == x1 + 2
-           body2 == <<rd, AddI("t2", "t2", "t0"), Addi("a1", "a1", stride), I("andi", "a1", "a1", "zero", 2047, 0), Addi("t3", "t3", -1)>>
-           x2 == l2 + 1 + Len(body2) + 1
-           loop2 == <<I("beqz", "zero", "t3", "zero", 0, x2)>> \o body2 \o <<J(l2)>>
-       IN <<Li("a0", first), Li("t3", count)>> \o loop1 \o <<Li("a1", first), Li("t3", count)>> \o loop2 \o <<Nop>>
-  ELSE
-  LET loop1 == b \o <<Addi("a0", "a0", stride), Addi("t3", "t3", -1), I("bnez", "zero", "t3", "zero", 0, l1)>>
+      wrap0 == IF mix = "wrap" THEN <<I("andi", "a0", "a0", "zero", 2047, 0)>> ELSE <<>>
+      wrap1 == IF mix = "wrap" THEN <<I("andi", "a1", "a1", "zero", 2047, 0)>> ELSE <<>>
+      \* Two loop forms.  Bottom-tested: a taken conditional branch closes every iteration (variants that
+      \* assume "not taken" flush each time).  Top-tested and closed by a jump: the only taken conditional
+      \* branch is the exit, so that those variants run the whole walk without a flush.  The walks that
+      \* start at offset 60 (and the wrap mix) use the second form.
+      closed == mix = "wrap" \/ first % 64 = 60
+      body1 == b \o <<Addi("a0", "a0", stride)>> \o wrap0 \o <<Addi("t3", "t3", -1)>>
+      body2 == <<rd, AddI("t2", "t2", "t0")>> \o hot2 \o <<Addi("a1", "a1", stride)>> \o wrap1 \o <<Addi("t3", "t3", -1)>>
+      x1 == l1 + 1 + Len(body1) + 1                  \* closed form: index after loop 1
+      loop1 == IF closed THEN <<I("beqz", "zero", "t3", "zero", 0, x1)>> \o body1 \o <<J(l1)>>
+               ELSE body1 \o <<I("bnez", "zero", "t3", "zero", 0, l1)>>
       l2 == l1 + Len(loop1) + 2
-      loop2 == <<rd, AddI("t2", "t2", "t0")>> \o hot2 \o <<Addi("a1", "a1", stride), Addi("t3", "t3", -1), I("bnez", "zero", "t3", "zero", 0, l2)>>
+      x2 == l2 + 1 + Len(body2) + 1
+      loop2 == IF closed THEN <<I("beqz", "zero", "t3", "zero", 0, x2)>> \o body2 \o <<J(l2)>>
+               ELSE body2 \o <<I("bnez", "zero", "t3", "zero", 0, l2)>>
   IN pre \o <<Li("a0", first), Li("t3", count)>> \o loop1 \o <<Li("a1", first), Li("t3", count)>> \o loop2 \o <<Nop>>
 WalkCases == { <<"hot", w, 128, 40, first>> : w \in {1, 2, 4}, first \in {0, 60} }   \* more L3 lines than MVP-8's L3 holds stream past the hot line
              \cup
